@@ -40,6 +40,7 @@ def main (args : List String) : IO UInt32 := do
   | "chain" :: _ => loopState stdin stdout chainStep (Drand.Chain.Stack.init true []); return 0
   | ["stream", backend] => loopState stdin stdout streamStep (streamDrvInit backend "asis"); return 0
   | ["stream", backend, variant] => loopState stdin stdout streamStep (streamDrvInit backend variant); return 0
+  | ["cbstore"] => loopState stdin stdout cbStep cbDrvInit; return 0
   | ["hash"] => loopPure stdin stdout hashStep; return 0
   | ["store", backend] =>
     match storeInit backend with
